@@ -1,5 +1,5 @@
 \* trace validation on core M
-CONSTANTS NL = 7  NA0 = 5  NF = 3  MB = 3  MaxCascade = 4  MaxLevel = 999  ReAdd = TRUE
+CONSTANTS NL = 7  NA0 = 5  NP0 = 2  NF = 3  MB = 3  MaxCascade = 4  MaxLevel = 999  ReAdd = TRUE
 CONSTANTS Layout <- LayoutM  Place <- PlaceM  SFlagSets <- Unused  TrackSet <- Unused
 SPECIFICATION TSpec
 CONSTRAINT Progress
